@@ -361,6 +361,16 @@ def r17_7(ctx):
     for x in walk_local(f.node):
         if isinstance(x, ast.Assign) and norm(x.targets[0]) == "re_indent":
             rx = regexast.compile_call(x.value)
+    if rx is None:
+        # the pattern compiled once at module level and matched here:  _RE = re.compile(..);  _RE.match(line.plain)
+        for c in walk_local(f.node):
+            if isinstance(c, ast.Call) and isinstance(c.func, ast.Attribute) and c.func.attr in ("match", "fullmatch") and isinstance(c.func.value, ast.Name):
+                try:
+                    gv = m.global_assign(c.func.value.id)
+                except Exception:
+                    gv = None
+                if gv is not None and regexast.compile_call(gv) is not None:
+                    rx = regexast.compile_call(gv)
     strips = [c for c in walk_local(f.node) if isinstance(c, ast.Call) and isinstance(c.func, ast.Attribute) and c.func.attr in ("lstrip", "strip") and not c.args]
     for c in strips:
         ctx.violation(f.fq, short(c), f"{m.relpath}:{c.lineno}", f"`{short(c)}` treats every Unicode whitespace character as indentation: leading U+3000 / U+00A0 etc. are overwritten by guide characters and ASCII spaces, i.e. the displayed code differs from the source")
